@@ -27,6 +27,7 @@ type c07Case struct {
 	Class  string   `json:"class,omitempty"` // mutation class that produced Hex
 }
 
+var c07Calls int // calls made by this worker process
 var c07Recorded int // inputs whose hash this worker process has recorded
 
 func init() {
@@ -90,6 +91,17 @@ func (t *c07Run) run(class string, in []byte) bool {
 	c := t.c
 	var msg util.Message
 	var err error
+	// like the contents of a pooled receive buffer, every third input is a window of a larger array with stale
+	// bytes behind it (cap > len): a decoder that slices past the end of its input then reads them instead of failing
+	c07Calls++
+	if c07Calls%3 == 1 {
+		big := make([]byte, len(in)+40)
+		for i := range big {
+			big[i] = 0xee
+		}
+		copy(big, in)
+		in = big[:len(in)]
+	}
 	v := fw.Guard(len(in), func() { msg, err = of.Parse(in) })
 	nontrivial := len(in) >= 8 && in[1] <= 29 && t.base != nil
 	if c07Recorded < 150000 {
